@@ -216,6 +216,8 @@ def main():
         for s in range(0, n, per):
             jobs.append({"mode": mode, "start": s, "count": min(per, n - s), "cases": 3})
     vlib.fanout("checks.C10", jobs, c, timeout=3000 if thorough else 600)
+    if c.counters.get("violations_dropped_over_200"):
+        c.note_inconclusive("a worker dropped violation records (cap 200): an unclassified one may be among them")
     total = sum(n for _, n in plan)
     c.floor("experiments_built", total - total // 20)
     c.floor("evaluations", total * 3 - total // 5)
